@@ -107,6 +107,7 @@ func TestVerifKVTrace(t *testing.T) {
 			}
 			out.Emit(kvEventOf(a, &o))
 		}
+		w.store.Close()
 	}
 }
 
